@@ -553,6 +553,26 @@ Section Model.
     Definition htlc_sighash (x : tx * bytes * N) : bytes :=
       let '(t, ws, amt) := x in sighash t 0 ws amt htlc_sighash_type.
 
+    (** ** BOLT-3 trimming.  An HTLC whose amount is below the dust limit plus the fee of its
+        second-stage transaction (HTLC-timeout, weight 663, for an offered one; HTLC-success,
+        weight 703, for a received one; no fee on zero-fee-anchor channels) has no output.  The
+        signer has no negotiated dust limit: its constants are 330 sat (354 on zero-fee-anchor
+        channels).  LDK's builder emits an output for every HTLC it is given, so the
+        transaction the signer builds is the BOLT-3 one exactly for contents without a trimmed
+        HTLC — which is what [validate_commitment_tx] (policy-commitment-outputs-trimmed) must
+        guarantee; [bolt3_tx] is the specification the signatures are checked against. *)
+    Definition htlc_trim_limit (feerate : N) (offered : bool) : N :=
+      if zf then 354 else 330 + feerate * htlc_weight offered / 1000.
+    Definition trimmed (feerate : N) (offered : bool) (h : htlc) : bool :=
+      h_value h <? htlc_trim_limit feerate offered.
+    Definition untrim (c : content) : content :=
+      mkContent (c_num c) (c_feerate c) (c_to_holder c) (c_to_cp c)
+                (filter (fun h => negb (trimmed (c_feerate c) true h)) (c_offered c))
+                (filter (fun h => negb (trimmed (c_feerate c) false h)) (c_received c)).
+    Definition bolt3_tx (c : content) : tx := canon_tx (untrim c).
+    Definition bolt3_ws (c : content) : list bytes := canon_ws (untrim c).
+    Definition bolt3_htlc_txs (c : content) : option (list (tx * bytes * N)) := htlc_txs (untrim c).
+
     (** ** (ii) [handle_output] and [decode_commitment_tx] *)
     Definition anchors : bool := is_anchors (s_ctype s).
 
